@@ -388,25 +388,37 @@ func checkUnique(c *core.Ctx, l *core.Ledger) {
 		{"compiler.gather", "Module.Types", isMapUpdateOnField("Types")},
 		{"compiler.gather", "Module.Services", isMapUpdateOnField("Services")},
 	}
+	// every insertion of that kind anywhere in the package (not only in the function that holds it
+	// today) must be dominated, inside its own function, by a successful claim
 	for _, s := range sites {
-		f := c.SSAFunc(c.LookupFunc("compile", s.fn))
-		if f == nil {
-			l.Unk("UNIQUE", s.fn+":"+s.what, "", "function compile."+s.fn+" not found")
-			continue
-		}
-		edges := successEdges(f, isClaim)
 		n := 0
-		core.Instrs(f, func(in ssa.Instruction) {
-			if !s.pred(in) {
-				return
+		for _, f := range c.AllFuncs("compile") {
+			if c.IsTestFile(f.Pos()) || len(f.Blocks) == 0 {
+				continue
 			}
-			n++
-			key := fmt.Sprintf("%s:%s#%d", s.fn, s.what, n)
-			ok := core.AllPathsThroughEdges(f, in.Block(), edges)
-			l.Check(ok, "UNIQUE", key, c.Rel(in.Pos()), "insertion is dominated by a successful claim of the name in the scope's namespace", "a definition is inserted into "+s.what+" on a path that has not successfully claimed its name: duplicates can be accepted (later one silently wins)")
-		})
+			var edges []core.Edge
+			k := 0
+			core.Instrs(f, func(in ssa.Instruction) {
+				if !s.pred(in) {
+					return
+				}
+				if mu, isMU := in.(*ssa.MapUpdate); isMU && rangeKeyOf(mu.Key) != nil {
+					// re-assignment under a key enumerated from an existing table (link() replaces each type by
+					// its linked form): the key set does not grow, no new name enters
+					return
+				}
+				if edges == nil {
+					edges = successEdges(f, isClaim)
+				}
+				n++
+				k++
+				key := fmt.Sprintf("%s@%s#%d", s.what, f.Name(), k)
+				ok := core.AllPathsThroughEdges(f, in.Block(), edges)
+				l.Check(ok, "UNIQUE", key, c.Rel(in.Pos()), "insertion is dominated by a successful claim of the name in the scope's namespace", "a definition is inserted into "+s.what+" on a path that has not successfully claimed its name: duplicates can be accepted (later one silently wins)")
+			})
+		}
 		if n == 0 {
-			l.Unk("UNIQUE", s.fn+":"+s.what, c.Rel(f.Pos()), "no insertion into "+s.what+" recognised in compile."+s.fn)
+			l.Unk("UNIQUE", s.what, "", "no insertion into "+s.what+" recognised in package compile")
 		}
 	}
 	// field ids: the append in compileFields is dominated by the negative outcome of the usedIDs lookup
